@@ -54,6 +54,10 @@ class RayGenerator:
             z1 = np.full_like(Px, EPL)
 
         mag = np.sqrt((x1 - x0)**2 + (y1 - y0)**2 + (z1 - z0)**2)
+        # the entrance pupil may lie behind the launch point (virtual pupil):
+        # the ray then lies on the line through the aim point but still
+        # travels towards +z, away from it
+        mag = np.where(z1 < z0, -mag, mag)
         L = (x1 - x0) / mag
         M = (y1 - y0) / mag
         N = (z1 - z0) / mag
